@@ -284,7 +284,85 @@ func matrixPrograms() []matrixProg {
 	out = append(out, matrixProg{name: "const-flow", p: mxConstFlow(), wasmOK: true})
 	out = append(out, matrixProg{name: "ranges", p: mxRanges(), wasmOK: true})
 	out = append(out, matrixProg{name: "stale-constants", p: mxStaleConstants(), wasmOK: true})
+	out = append(out, matrixProg{name: "self-referential-assignment", p: mxSelfAssign(), wasmOK: true})
 	return out
+}
+
+// mxSelfAssign: aggregates assigned from a literal whose components read the destination itself
+// (swap, rotate, Fibonacci step, reverse): the right-hand side is evaluated completely before any
+// part of the destination changes (by-value semantics). Structs, a struct held in a struct, fixed
+// arrays, element-wise and whole, in main and inside a function working on its by-value parameter.
+func mxSelfAssign() *gen.Program {
+	I32, I64 := gen.I32, gen.I64
+	p := &gen.Program{Features: map[string]bool{}}
+	pair := &gen.Type{K: gen.KStruct, Name: "Pr", Fields: []gen.Field{{Name: "A", T: I64}, {Name: "B", T: I64}}}
+	tri := &gen.Type{K: gen.KStruct, Name: "Tr", Fields: []gen.Field{{Name: "X", T: I32}, {Name: "Y", T: I32}, {Name: "Z", T: I32}}}
+	box := &gen.Type{K: gen.KStruct, Name: "Bx", Fields: []gen.Field{{Name: "Pos", T: tri}, {Name: "N", T: I32}}}
+	arrT := &gen.Type{K: gen.KArr, N: 4, Elem: I32}
+	p.Types = []*gen.Type{pair, tri, box}
+	fx := func(x gen.Expr, n string, t *gen.Type) gen.Expr { return &gen.FieldX{X: x, Name: n, T: t} }
+	var m []gen.Stmt
+	dumpPair := func(v gen.Expr, tag string) {
+		m = append(m, mxPrintLet("pa"+tag, I64, fx(v, "A", I64))...)
+		m = append(m, mxPrintLet("pb"+tag, I64, fx(v, "B", I64))...)
+	}
+	dumpTri := func(v gen.Expr, tag string) {
+		for _, f := range []string{"X", "Y", "Z"} {
+			m = append(m, mxPrintLet("t"+f+tag, I32, fx(v, f, I32))...)
+		}
+	}
+	// Fibonacci by pair assignment
+	s := &gen.Var{Name: "s", T: pair}
+	m = append(m, &gen.Let{Name: "s", T: pair, Init: &gen.StructLit{T: pair, Vals: []gen.Expr{mxLit(I64, 0), mxLit(I64, 1)}}, Annot: true})
+	for k := 0; k < 6; k++ {
+		m = append(m, &gen.Assign{LHS: s, Op: "=", RHS: &gen.StructLit{T: pair, Vals: []gen.Expr{fx(s, "B", I64), &gen.Bin{Op: "+", L: fx(s, "A", I64), R: fx(s, "B", I64), T: I64}}}})
+		dumpPair(s, fmt.Sprintf("%d", k))
+	}
+	// swap written in the other field order
+	m = append(m, &gen.Assign{LHS: s, Op: "=", RHS: &gen.StructLit{T: pair, Vals: []gen.Expr{fx(s, "B", I64), fx(s, "A", I64)}}})
+	dumpPair(s, "sw")
+	// rotation of three fields
+	v := &gen.Var{Name: "v", T: tri}
+	m = append(m, &gen.Let{Name: "v", T: tri, Init: &gen.StructLit{T: tri, Vals: []gen.Expr{mxLit(I32, 1), mxLit(I32, 2), mxLit(I32, 3)}}, Annot: true})
+	for k := 0; k < 2; k++ {
+		m = append(m, &gen.Assign{LHS: v, Op: "=", RHS: &gen.StructLit{T: tri, Vals: []gen.Expr{fx(v, "Y", I32), fx(v, "Z", I32), fx(v, "X", I32)}}})
+		dumpTri(v, fmt.Sprintf("r%d", k))
+	}
+	// a struct held in a struct
+	b := &gen.Var{Name: "bx", T: box}
+	m = append(m, &gen.Let{Name: "bx", T: box, Init: &gen.StructLit{T: box, Vals: []gen.Expr{&gen.StructLit{T: tri, Vals: []gen.Expr{mxLit(I32, 10), mxLit(I32, 20), mxLit(I32, 30)}}, mxLit(I32, 7)}}, Annot: true})
+	bp := fx(b, "Pos", tri)
+	m = append(m, &gen.Assign{LHS: bp, Op: "=", RHS: &gen.StructLit{T: tri, Vals: []gen.Expr{fx(bp, "Z", I32), fx(bp, "X", I32), &gen.Bin{Op: "+", L: fx(bp, "Y", I32), R: fx(b, "N", I32), T: I32}}}})
+	dumpTri(bp, "bx")
+	m = append(m, mxPrintLet("bn", I32, fx(b, "N", I32))...)
+	// fixed array reversed and shifted through a literal
+	a := &gen.Var{Name: "a", T: arrT}
+	at := func(k int64) gen.Expr { return &gen.Index{X: a, I: mxLit(I32, k), T: I32} }
+	m = append(m, &gen.Let{Name: "a", T: arrT, Init: &gen.ArrLit{T: arrT, Elems: []gen.Expr{mxLit(I32, 1), mxLit(I32, 2), mxLit(I32, 3), mxLit(I32, 4)}}, Annot: true})
+	m = append(m, &gen.Assign{LHS: a, Op: "=", RHS: &gen.ArrLit{T: arrT, Elems: []gen.Expr{at(3), at(2), at(1), at(0)}}})
+	for k := int64(0); k < 4; k++ {
+		m = append(m, mxPrintLet(fmt.Sprintf("ar%d", k), I32, at(k))...)
+	}
+	m = append(m, &gen.Assign{LHS: a, Op: "=", RHS: &gen.ArrLit{T: arrT, Elems: []gen.Expr{at(1), at(2), at(3), &gen.Bin{Op: "+", L: at(0), R: at(1), T: I32}}}})
+	for k := int64(0); k < 4; k++ {
+		m = append(m, mxPrintLet(fmt.Sprintf("as%d", k), I32, at(k))...)
+	}
+	// the same inside a function, on its by-value parameter
+	q := &gen.Var{Name: "q", T: pair}
+	step := &gen.Func{Name: "step", Params: []gen.Param{{Name: "q", T: pair}, {Name: "n", T: I32}}, Ret: I64, Body: []gen.Stmt{
+		&gen.Let{Name: "k", T: I32, Init: mxLit(I32, 0), Annot: true},
+		&gen.While{Cond: &gen.Bin{Op: "<", L: &gen.Var{Name: "k", T: I32}, R: &gen.Var{Name: "n", T: I32}, T: gen.TBool}, Body: []gen.Stmt{
+			&gen.Assign{LHS: q, Op: "=", RHS: &gen.StructLit{T: pair, Vals: []gen.Expr{fx(q, "B", I64), &gen.Bin{Op: "+", L: fx(q, "A", I64), R: fx(q, "B", I64), T: I64}}}},
+			&gen.Assign{LHS: &gen.Var{Name: "k", T: I32}, Op: "=", RHS: &gen.Bin{Op: "+", L: &gen.Var{Name: "k", T: I32}, R: mxLit(I32, 1), T: I32}}}},
+		&gen.Return{X: fx(q, "A", I64)}}}
+	p.Funcs = append(p.Funcs, step)
+	m = append(m, &gen.Let{Name: "seed", T: pair, Init: &gen.StructLit{T: pair, Vals: []gen.Expr{mxLit(I64, 0), mxLit(I64, 1)}}, Annot: true})
+	for _, n := range []int64{10, 50} {
+		m = append(m, mxPrintLet(fmt.Sprintf("fib%d", n), I64, &gen.Call{Fn: step, Args: []gen.Expr{&gen.Var{Name: "seed", T: pair}, mxLit(I32, n)}})...)
+	}
+	dumpPair(&gen.Var{Name: "seed", T: pair}, "seed")
+	p.Main = m
+	return p
 }
 
 // mxStaleConstants: locals with a constant initialiser that are tested (if / else-if / while / match
